@@ -15,11 +15,12 @@ use std::time::{Duration, Instant};
 use weechess_engine::eval::Evaluator;
 use weechess_engine::searcher::{ControlEvent, Searcher, StatusEvent};
 
-/// cap on nodes searched while the cancellation flag is up: 5 x the poll interval per worker
+/// cap on nodes searched while the cancellation flag is up: 20 x the poll interval per worker
 /// (each worker polls the flag every 10 000 of its own nodes, so the true bound is below
-/// 10 000 x workers)
+/// 10 000 x workers; the margin is against a legitimate change of the poll interval, the
+/// property only asks for "a short bounded time")
 pub fn cap_for(workers: u8) -> usize {
-    5 * 10_000 * workers.max(1) as usize
+    20 * 10_000 * workers.max(1) as usize
 }
 
 pub const TERMINAL_FENS: &[&str] = &[
@@ -454,7 +455,7 @@ pub fn plan(ctx: &Ctx) -> Plan {
                kings, kings moved inside their regions) where every iteration costs fewer nodes than the poll interval; \
                depth none / 1-6 / 50-150 (single worker); 1-32 workers (>1 under the baton scheduler); the cancellation flag raised by a \
                node clock at N in {0,1,small,9999,10000,10001,20000,large}. Oracle: no panic; while the flag is up at most \
-               5 x 10000 x workers further nodes (the hook turns an overrun into a finite failure); a terminal root \
+               20 x 10000 x workers further nodes (the hook turns an overrun into a finite failure); a terminal root \
                reports no move and returns; other roots satisfy C03's oracle; the returned artifact seeds a further search \
                that satisfies C03's oracle. Real-thread part (public Searcher::analyze): scripts over {Stop now, Stop \
                after first event, Stop after completion, Stop twice, drop receiver, sleep}; join() must return Ok within a \
